@@ -151,7 +151,7 @@ func exploreWalkArgs(p *Prog, fn *ssa.Function, init map[string]uint32, summaris
 			case 0:
 				return Tup{}, true
 			case 1:
-				if len(a) > 0 && types.Identical(res.At(0).Type(), cc.Signature().Recv().Type()) {
+				if len(a) > 0 && cc.Signature().Recv() != nil && types.Identical(res.At(0).Type(), cc.Signature().Recv().Type()) {
 					return a[0], true // fluent style: returns the receiver
 				}
 				return Sym{K: name + "()", T: res.At(0).Type()}, true
